@@ -125,10 +125,11 @@ theorem newline_total_w {st : IState} (hi : InlineInv st) (silent : Bool)
 /-- in a frame where the newline rule is active, the trailing blanks of a trailing text stand behind a
     solid character of the same line: the translation is a shift there (`MapT.shift`), so the source
     end of the text lies at least `tailSpaces` behind the source offset of that character -/
-theorem GoodT.trailOKw {cfg : Cfg} {lo : Nat} {st : IState} (h : GoodT cfg lo st)
-    (hA : C05T.tv_NlAct cfg st.level) : TrailOKw st := by
+theorem trailOKw_of {A : Prop} {lo : Nat} {st : IState} (hmap : MapT st.src st.srcmap)
+    (hri : tv_RInv A lo st) (hA : A) : TrailOKw st := by
+  have h : (MapT st.src st.srcmap ∧ tv_RInv A lo st) := ⟨hmap, hri⟩
   intro init last hcs hlt
-  obtain ⟨_, start, xs, xe, hsl, _, hxe, hrange⟩ := h.ri.ri.trail init last hcs hlt
+  obtain ⟨_, start, xs, xe, hsl, _, hxe, hrange⟩ := h.2.ri.trail init last hcs hlt
   obtain ⟨_, _, hse⟩ := slice_boundaries hsl
   have h1 := tailSpaces_le last.content
   refine ⟨by omega, ?_⟩
@@ -151,7 +152,7 @@ theorem GoodT.trailOKw {cfg : Cfg} {lo : Nat} {st : IState} (h : GoodT cfg lo st
   have hnsp : ch0 ≠ ' ' := C05T.tv_tailSpaces_max hcont rfl
   have hnlf : ch0 ≠ '\n' := by
     intro hc
-    apply h.ri.nolf hA init last hcs hlt
+    apply h.2.nolf hA init last hcs hlt
     rw [hcont, hc]; simp
   have hbp : byteLen pre = byteLen pre0 + ch0.utf8Size := by
     rw [hpre0, byteLen_append]; simp [byteLen]
@@ -163,9 +164,12 @@ theorem GoodT.trailOKw {cfg : Cfg} {lo : Nat} {st : IState} (h : GoodT cfg lo st
       simp
     · rw [byteLen_append]; omega
     · simp only [byteLen]; rw [byteLen_replicate_space]; omega
-  obtain ⟨x0, hx0⟩ := C05.translate_total st.srcmap h.map.wf (st.pos - tailSpaces last.content)
-  have := h.map.shift _ _ ch0 _ (st.pos - tailSpaces last.content) st.pos x0 xe hcut hnsp hnlf
+  obtain ⟨x0, hx0⟩ := C05.translate_total st.srcmap h.1.wf (st.pos - tailSpaces last.content)
+  have := h.1.shift _ _ ch0 _ (st.pos - tailSpaces last.content) st.pos x0 xe hcut hnsp hnlf
     (space_not_lf _) (by omega) (by omega) (Nat.le_refl _) hx0 hxe
   omega
+
+theorem GoodT.trailOKw {cfg : Cfg} {lo : Nat} {st : IState} (h : GoodT cfg lo st)
+    (hA : C05T.tv_NlAct cfg st.level) : TrailOKw st := trailOKw_of h.map h.ri hA
 
 end MdIt.Inline.TT
